@@ -610,7 +610,7 @@ GEN = {'json': gen_json, 'codec': gen_codec, 'num': gen_num, 'sock': gen_sock,
 def units(tier):
     q = (tier == 'quick')
     u = []
-    u += [('json', i, 1) for i in range(260 if q else 5200)]
+    u += [('json', i, 1) for i in range(260 if q else 8000)]
     u += [('codec', n, 1 if q else 12) for n in range(0, 34 if q else 49)]
     u += [('num', i, 1 if q else 4) for i in range(14 if q else 80)]
     u += [('sock', i, 1 if q else 5) for i in range(6 if q else 40)]
@@ -832,7 +832,7 @@ def run_fuzz(ctx, sample):
             with open(os.path.join(seeddir, 's%06d' % n), 'wb') as f:
                 f.write(b)
             n += 1
-    runs = ctx.n(20000, 1500000)
+    runs = ctx.n(20000, 4000000)
     res = core.tmap(_fuzz_one, [(exe, ctx.tmp, i, runs, seeddir) for i in range(core.NCPU)])
     ctx.count('libfuzzer_seed_inputs', n)
     ctx.count('libfuzzer_executions', sum(r[0] for r in res))
